@@ -654,7 +654,9 @@ static vector<Scenario> build_scenarios(const vf::Ctx& c) {
           sc.api = CM;
           unsigned v = (unsigned)(mix(seed + 99, b * 1000 + pi * 10 + vi) >> 9);
           make_script(sc, CM_BEH[b], SIZES[pi], SIZES[vi], v);
-          sc.timeout_us = dl ? 600000000ULL : 0;
+          // a deadline that a child finishing on its own never reaches (scripted sleeps total < 0.5 s); kept below the
+          // monitor's watchdog so that a call that merely sits out its deadline ends by itself
+          sc.timeout_us = dl ? 60000000ULL : 0;
           sc.ptr_overload = ((pi + vi + dl) % 2) == 0;
           uint64_t salt = (uint64_t)out.size();
           sc.plan = (!quick && (salt % 3 == 0)) ? Plan() : pick_plan(salt);
@@ -1143,6 +1145,8 @@ struct Sampler {
   pid_t sp;
   const Scenario& sc;
   int consec = 0;
+  int zconsec = 0;            // consecutive samples: child exited (zombie), parent blocked for ever in one call
+  uint64_t zcalls = 0;
   uint64_t last_bytes = ~0ULL;
   uint64_t window_calls0 = 0;
   uint64_t prev_calls = 0;
@@ -1194,6 +1198,35 @@ struct Sampler {
     if (child <= 0) {
       consec = 0;
       return w;
+    }
+    // (Z) the child has exited but the parent sits in one call that has no timeout and never reaps it.  In a correct
+    // parent the child's exit closes its pipe ends, which wakes every poll/read/write on them at once.
+    {
+      ProcStat ps0 = proc_stat(sp), cs0 = proc_stat(child);
+      bool z = false;
+      Sys py0;
+      if (ps0.ok && cs0.ok && cs0.ppid == sp && cs0.state == 'Z' && ps0.state == 'S') {
+        py0 = proc_syscall(sp);
+        bool infinite_poll = py0.ok && (py0.nr == 7) && ((int)py0.a2 == -1);
+        bool blocking_io = py0.ok && (py0.nr == 0 || py0.nr == 1);
+        z = infinite_poll || blocking_io;
+      }
+      if (z && (zconsec == 0 || calls == zcalls)) {
+        if (zconsec == 0) zcalls = calls;
+        if (++zconsec >= 100) {
+          string api = sc.api == CM ? (sc.timeout_us ? "communicate:deadline" : "communicate:no-deadline") : API_NAMES[sc.api];
+          w.found = true;
+          w.key = fmt("%s:hang:parent-%s:child-exited-unreaped", api.c_str(), sysname(py0.nr));
+          w.what = fmt("for 100 consecutive samples (>= 5 s) child %d has been a zombie while parent %d stayed blocked in one system call "
+                       "without a timeout: '%s' wchan=%s; nothing can wake it: the child's exit did not close the pipe (the parent itself "
+                       "still holds the other end?); parent fds: %s",
+                       child, sp, py0.line.c_str(), slurp(fmt("/proc/%d/wchan", sp).c_str(), 64).c_str(),
+                       [&] { string r; for (auto& kv : list_fds(sp)) r += fmt("%d->%s ", kv.first, kv.second.c_str()); return r; }().c_str());
+          return w;
+        }
+      } else {
+        zconsec = 0;
+      }
     }
     // The parent must be either blocked in write/poll/wait, or demonstrably executing its loop (its wrapped-call
     // counters advanced since the previous sample) without moving a byte.  A parent that is merely starved of CPU
